@@ -7,11 +7,6 @@ other than `Dictionary(integer key, Utf8 | LargeUtf8)` (`build_builder` takes AN
 namespace SaModel.Build
 open SaModel SaModel.Spec
 
-/-- integer data types (the key types of an Arrow dictionary) -/
-def isIntDT : DataType → Bool
-  | .int8 | .int16 | .int32 | .int64 | .uint8 | .uint16 | .uint32 | .uint64 => true
-  | _ => false
-
 /-- the value types `DictionaryUtf8Builder` is meant for -/
 def isStrDT : DataType → Bool
   | .utf8 | .largeUtf8 => true
@@ -141,18 +136,19 @@ theorem newDT_shape : ∀ (dt : DataType) (path : String) (n : Bool) (md : Metad
       have := newDT_shape cdt _ cn cmd el (by simpa [covered, coveredF] using hc) h1
       simp only [Shape]
       exact ⟨isSome_newValidity n, cname, cdt, cn, cmd, by rw [Int.toNat_of_nonneg (by omega)], this⟩
-  | .map (.mk ename (.struct (.cons (.mk kn kdt knl kmd) (.cons (.mk vn vdt vnl vmd) rest))) en emd) sorted, path, n, md, b, hc, h => by
+  | .map (.mk _ (.struct (.cons _ (.cons _ (.cons _ _)))) _ _) _, _, _, _, _, _, h => by simp [newDT, fail] at h
+  | .map (.mk ename (.struct (.cons (.mk kn kdt knl kmd) (.cons (.mk vn vdt vnl vmd) .nil))) en emd) sorted, path, n, md, b, hc, h => by
     simp only [newDT] at h
     obtain ⟨kb, h1, h⟩ := (bind_ok _ _ _).1 h
     obtain ⟨vb, h2, h⟩ := (bind_ok _ _ _).1 h
     cases h
     simp only [newB] at h1 h2
-    have hc' : covered kdt = true ∧ covered vdt = true ∧ coveredFs rest = true := by
+    have hc' : covered kdt = true ∧ covered vdt = true ∧ coveredFs .nil = true := by
       simpa [covered, coveredF, coveredFs, Bool.and_assoc] using hc
     have hk := newDT_shape kdt _ knl kmd kb hc'.1 h1
     have hv := newDT_shape vdt _ vnl vmd vb hc'.2.1 h2
     simp only [Shape]
-    exact ⟨isSome_newValidity n, ename, kn, kdt, knl, kmd, vn, vdt, vnl, vmd, rest, en, emd, sorted, rfl, hk, hv⟩
+    exact ⟨isSome_newValidity n, ename, kn, kdt, knl, kmd, vn, vdt, vnl, vmd, .nil, en, emd, sorted, rfl, hk, hv⟩
   | .map (.mk _ (.struct .nil) _ _) _, _, _, _, _, _, h => by simp [newDT, fail] at h
   | .map (.mk _ (.struct (.cons _ .nil)) _ _) _, _, _, _, _, _, h => by simp [newDT, fail] at h
   | .map (.mk _ .null _ _) _, _, _, _, _, _, h => by simp [newDT, fail] at h
@@ -202,6 +198,8 @@ theorem newDT_shape : ∀ (dt : DataType) (path : String) (n : Bool) (md : Metad
       exact ⟨isSome_newValidity n, fs, rfl, hsl⟩
   | .dictionary k v, path, n, md, b, hc, h => by
     simp only [newDT] at h
+    split at h
+    case isFalse => simp [ctx_ok, fail] at h
     obtain ⟨kb, h1, h⟩ := (bind_ok _ _ _).1 h
     obtain ⟨vb, h2, h⟩ := (bind_ok _ _ _).1 h
     cases h
